@@ -15,6 +15,9 @@ CLAIMED = {
  "C08": ("Coq model of the permission decision (rule parsing with the optional type prefix and '!', last-match-wins iteration, abort on an uncompilable rule, per-user lists replacing the defaults, resolved path / regular-file gate); theorems: C08_parse (every pattern, ':' included, bare or prefixed, is read as its meaning), C08_served_iff (served iff resolved, regular and the LAST matching rule is an allow) for all rule lists and match oracles, and the refutation of the pinned parser (a skipped deny rule grants access). Tied to the code by running user.HasFilePermission on generated trees with symlink chains, FIFOs, '..' and rule lists with POSIX classes.",
          "partial: regexp and OS path resolution are oracles (Python realpath/lstat is the independent reference); TOCTOU between check and open is outside the model; background users bypass by design",
          "Coq proof (induction over rule lists, rev_ind for last-match) + differential correspondence check on real directory trees"),
+ "C09": ("Coq model of the two authentication decisions: verifyAuthorizedKeys over files abstracted to classified lines (C09_keys: accepted iff listed, for every arrangement of blank / comment / junk lines; refutation of the pinned loop) and the password callback (C09_password: granted iff health/health or a background user with a configured job name and an allow-listed peer, DNS as oracle), plus the health-only handler rule. Tied to the code by calling verifyAuthorizedKeys with real keys and rendered files, the real Callback with generated job configurations, and real SSH handshakes against the in-process server.",
+         "partial: signature verification and ParseAuthorizedKey's line grammar are x/crypto; DNS is an oracle",
+         "Coq proof (induction with fuel; iff characterisations) + differential correspondence check incl. real SSH handshakes"),
  "C10": ("Coq theorem C10_no_panic: for every byte stream, session state and behaviour of the library oracles, the model of Write -> handleCommand -> protocol/base64/option parsing -> dispatch -> arity checks never reaches a Go panic (every index/slice/nil access is a checked operation in the model). Tied to the code by a decode-level comparison (real ServerHandler up to the command callback) and by a crash oracle: generated payloads are fed to real sessions in child processes, a dead process is a violation.",
          "partial: query parsing totality is C11's theorem; reader internals beyond the before-context bound, regexp and x/crypto are outside the model; resource exhaustion is out of scope",
          "Coq proof (case analysis with checked indexing) + crash oracle in child processes + decode-level differential check"),
